@@ -576,11 +576,8 @@ func (e *Engine) callFrameShallow(ci ssa.CallInstruction) frameSet {
 				}
 			}
 		case "append":
-			if st, ok := c.Args[0].Type().Underlying().(*types.Slice); ok {
-				if k, s, ok := elemsKey(st.Elem()); ok {
-					out.keys[k] = s
-				}
-			}
+			// append is modelled as always copying into a backing array it allocates, so it
+			// never writes to an object that existed before the call (see appendKeys for loops)
 		}
 		return out
 	}
@@ -633,6 +630,17 @@ func (e *Engine) callFrameShallow(ci ssa.CallInstruction) frameSet {
 		return fv
 	}
 	for _, callee := range callees {
+		if ks, ok := libFrames[callee.String()]; ok && (callee.Pkg == nil || !e.homes[callee.Pkg.Pkg]) {
+			// a library function with a model: the model's declared frame is its effect
+			for k, s := range ks {
+				if k == "*" {
+					out.all = true
+				} else {
+					out.keys[k] = s
+				}
+			}
+			continue
+		}
 		if fs, ok := e.frames[callee]; ok {
 			if fs.all {
 				out.all = true
@@ -1003,4 +1011,16 @@ func (e *Engine) onlyRefImplementers(t types.Type) bool {
 func (e *Engine) exportedHomeIface(t types.Type) bool {
 	n, ok := t.(*types.Named)
 	return ok && n.Obj().Pkg() != nil && e.homes[n.Obj().Pkg()] && n.Obj().Exported()
+}
+
+// appendKeys: the element array key an append() call writes (at a fresh backing object).
+func (e *Engine) appendKeys(ci ssa.CallInstruction) map[string]Sort {
+	out := map[string]Sort{}
+	c := ci.Common()
+	if st, ok := c.Args[0].Type().Underlying().(*types.Slice); ok {
+		if k, s, ok := elemsKey(st.Elem()); ok {
+			out[k] = s
+		}
+	}
+	return out
 }
